@@ -21,7 +21,7 @@ from sim.core import sub_rng
 
 PROP = "C16"
 LEVEL = "exploration"
-TIERS = {"quick": dict(runs=14000, chunk=250), "thorough": dict(budget_s=480, max_runs=4_000_000, chunk=1000)}
+TIERS = {"quick": dict(runs=14000, chunk=250), "thorough": dict(budget_s=480, max_runs=4_000_000, chunk=500)}
 RUN_WALL_CAP = 30
 RULE = ("one case = one aggregation module (PNorm|KSFunction|SoftMinMax, parameter of either sign, data scale 2^k) with "
         "optional AggScaling(which, damping) and optional AggActiveSet(lower_rel, upper_rel, lower_amt, upper_amt) and a "
